@@ -11,7 +11,7 @@ TNext ==
   /\ l <= Len(Rec)
   /\ l' = l + 1
   /\ LET e == Rec[l] IN
-     IF e.a = "reset" THEN mon' = PInit(e.finite, e.len) /\ mode' = "ok" /\ bad' = bad
+     IF e.a = "reset" THEN mon' = [PInit(e.finite, e.len) EXCEPT !.starved = e.starved, !.held = e.starved] /\ mode' = "ok" /\ bad' = bad
      ELSE IF mode = "skip" \/ e.a = "end" THEN UNCHANGED <<mon, mode, bad>>
      ELSE LET r == Check(mon, e) IN
           IF r = "" THEN mon' = Upd(mon, e) /\ UNCHANGED <<mode, bad>>
